@@ -488,7 +488,7 @@ pub fn run(seed: u64, tier: &str, outdir: &str) {
     let mut c = Ctx { out: &mut out, max_ratio_milli: 0, worst_alloc: (String::new(), 0, 0) };
 
     // corpus first: the witnesses of the known findings and past disagreements
-    if let Ok(txt) = std::fs::read_to_string("/verif/corpus/C10/witness.ops") {
+    if let Ok(txt) = std::fs::read_to_string(format!("{}/corpus/C10/witness.ops", crate::common::verif_root())) {
         for l in txt.lines() {
             let p: Vec<&str> = l.split(' ').collect();
             if p.len() == 3 && p[0] == "dec" {
